@@ -46,6 +46,33 @@ fn wire_values(bits: u32, tier: Tier) -> Vec<u64> {
     v
 }
 
+/// Durations no 16- or 32-bit field of resolution `res_ms` can hold.
+fn huge_durations(res_ms: u64) -> Vec<Duration> {
+    let mut v = vec![Duration::MAX, Duration::MAX - Duration::from_nanos(1), Duration::from_secs(u64::MAX), Duration::from_millis(u64::MAX), Duration::from_micros(u64::MAX)];
+    for k in 33..=63u32 {
+        v.push(Duration::from_secs(1u64 << k));
+        v.push(Duration::from_secs((1u64 << k) + 83));
+    }
+    let unit = Duration::from_millis(res_ms);
+    for inr in [0u32, 1, 83, 8345, 60_000] {
+        let small = unit * inr;
+        // + 2^32 and 2^64 units / ms / us
+        for big in [
+            unit * u32::MAX + unit,
+            Duration::from_millis(u64::MAX) + Duration::from_millis(1),
+            Duration::from_micros(u64::MAX) + Duration::from_micros(1),
+            Duration::from_nanos(u64::MAX) + Duration::from_nanos(1),
+            Duration::from_secs(1 << 32),
+            (Duration::from_millis(u64::MAX) + Duration::from_millis(1)) * (res_ms as u32).max(1),
+        ] {
+            if let Some(d) = big.checked_add(small) {
+                v.push(d);
+            }
+        }
+    }
+    v
+}
+
 pub fn sites(tier: Tier) -> Vec<Site> {
     let kinds = Arc::new(spec::load());
     let mut sites = vec![];
@@ -170,6 +197,11 @@ pub fn sites(tier: Tier) -> Vec<Site> {
             for over in [max + 1, max + 2, max * 2, max * 10 + 7, 1 << 40, u64::MAX / 20] {
                 cases.push((di, over, 3));
             }
+            // far beyond: every power of two of seconds, the top of Duration, and durations that are
+            // an in-range value plus 2^16 / 2^32 / 2^64 units, milliseconds, microseconds (aliases under truncation)
+            for h in 0..huge_durations(d.res_ms).len() as u64 {
+                cases.push((di, h, 4));
+            }
         }
         let cases = Arc::new(cases);
         let (dfs, kinds) = (dfs.clone(), kinds.clone());
@@ -189,7 +221,8 @@ pub fn sites(tier: Tier) -> Vec<Site> {
                 let Ok(Ok(Some(mut p))) = guard(|| codec.decode(&mut buf)) else { return };
                 let base_us = (w as u128) * (d.res_ms as u128) * 1000;
                 let us = match delta { 0 | 3 => base_us, 1 => base_us + 1, _ => base_us + (d.res_ms as u128) * 1000 - 1 };
-                let dur = Duration::new((us / 1_000_000) as u64, ((us % 1_000_000) * 1000) as u32);
+                let dur = if delta == 4 { huge_durations(d.res_ms)[w as usize] } else { Duration::new((us / 1_000_000) as u64, ((us % 1_000_000) * 1000) as u32) };
+                let delta = if delta == 4 { 3 } else { delta };
                 if !(d.set)(&mut p, dur) { return; }
                 let label = format!("{}.{} = {dur:?}", d.kind, d.field);
                 let replay = json!({"site": "time-typed", "index": i, "case": label});
